@@ -2,6 +2,7 @@ package lint
 
 import (
 	"fmt"
+	"os"
 	"sort"
 	"strings"
 
@@ -39,6 +40,9 @@ func SelfTest(dir string) (ran int, failures []string) {
 			for _, o := range r.Obls {
 				if o.Verdict != Discharged && strings.HasPrefix(o.Rule, class) {
 					bad++
+					if os.Getenv("IKELINT_DEBUG_SELFTEST") != "" {
+						fmt.Fprintf(os.Stderr, "selftest %s: %s %s: %s\n", name, o.Rule, o.Key, o.Detail)
+					}
 				}
 			}
 			ran++
